@@ -160,7 +160,7 @@ func (h *hist) seedTree(dir string) {
 	r := h.r
 	mk := func(parent *inode, hostParent, name string, isDir bool) *inode {
 		n := h.m.newInode(isDir)
-		parent.children[name] = n
+		parent.link(name, n)
 		p := filepath.Join(hostParent, name)
 		if isDir {
 			n.parent = parent
@@ -1045,7 +1045,7 @@ func (h *hist) opPathOpen(hn *hint) {
 	n := pp.res.node
 	if create {
 		n = h.m.newInode(false)
-		pp.res.parent.children[pp.res.name] = n
+		pp.res.parent.link(pp.res.name, n)
 	}
 	if truncate {
 		n.data = nil
@@ -1599,6 +1599,19 @@ func (h *hist) opFdFilestat(hn *hint) {
 		return
 	}
 	h.checkFilestat("fd_filestat_get", cls, desc, o.ino)
+	if h.stop || !o.ino.isDir || fd == preopenFd || o.opened == "" {
+		return
+	}
+	if res := h.m.resolve(h.m.root, o.opened); res.err == 0 && res.node != nil && res.node != o.ino && res.node.isDir {
+		ino := h.g.u64(offResult + 8)
+		p, l := h.g.putPath(offPathA, o.opened)
+		if e := h.g.call("path_filestat_get", preopenFd, 0, p, l, offResult); e == 0 && h.g.u64(offResult+8) == ino {
+			h.logf("path_filestat_get(3,0,%q) -> same inode %d as fd_filestat_get(%d)", o.opened, ino, fd)
+			h.record("dirfd-adopts-recreated-directory:fd_filestat_get",
+				fmt.Sprintf("fd_filestat_get(%d) reports inode %d, the inode of the different directory that now has the path %q the descriptor was opened with", fd, ino, o.opened))
+			h.res.Soft++
+		}
+	}
 }
 
 func (h *hist) opSetSize(hn *hint) {
@@ -1718,7 +1731,7 @@ func (h *hist) opMkdir(hn *hint) {
 	if create {
 		n := h.m.newInode(true)
 		n.parent = pp.res.parent
-		pp.res.parent.children[pp.res.name] = n
+		pp.res.parent.link(pp.res.name, n)
 		h.probePath(h.m.pathOf(n), "path_create_directory:"+scen)
 		if h.r.Chance(1, 3) {
 			h.hintf("path_open", 0, h.m.pathOf(n))
@@ -1923,7 +1936,7 @@ func (h *hist) opRename(hn *hint) {
 		d.linked, d.parent = false, nil
 	}
 	delete(src.res.parent.children, src.res.name)
-	dst.res.parent.children[dst.res.name] = s
+	dst.res.parent.link(dst.res.name, s)
 	if s.isDir {
 		s.parent = dst.res.parent
 	}
@@ -2016,7 +2029,16 @@ func (h *hist) opReaddirPass(hn *hint) {
 		default:
 			want = wantAny() // POSIX: an empty listing; wazero re-opens by name
 		}
-		h.check("fd_readdir", scen, fmt.Sprintf("(%d,buf_len=%d,cookie=0)", fd, bufLen), got, want)
+		suc, _ := h.check("fd_readdir", scen, fmt.Sprintf("(%d,buf_len=%d,cookie=0)", fd, bufLen), got, want)
+		if suc && o != nil && o.ino.isDir {
+			// unspecified what a removed directory lists, but never entries it did not have
+			ents, _, _ := parseDirents(h.g.read(offDirBuf, min(h.g.u32(offResult), bufLen)))
+			var names []string
+			for _, e := range ents {
+				names = append(names, e.name)
+			}
+			h.checkForeign(fd, o, names)
+		}
 		return
 	}
 	want := map[string]byte{".": ftDir, "..": ftDir}
@@ -2086,6 +2108,16 @@ func (h *hist) opReaddirPass(hn *hint) {
 		}
 	}
 	h.res.RdPasses++
+	if h.staleDir != "" {
+		var names []string
+		for n := range seen {
+			names = append(names, n)
+		}
+		sort.Strings(names)
+		if h.checkForeign(fd, o, names) {
+			return
+		}
+	}
 	var problems []string
 	for n := range want {
 		if seen[n] != 1 {
@@ -2101,6 +2133,29 @@ func (h *hist) opReaddirPass(hn *hint) {
 		sort.Strings(problems)
 		h.mismatch("fd_readdir", scen, "listing-differs-from-model", strings.Join(problems, "; "))
 	}
+}
+
+// checkForeign: a listing through a descriptor of a renamed/removed directory
+// must not contain names that directory never had; when another directory now
+// lives at the path the descriptor was opened with, such names mean the
+// descriptor turned into that directory.
+func (h *hist) checkForeign(fd int32, o *ofd, names []string) bool {
+	var foreign []string
+	for _, n := range names {
+		if n != "." && n != ".." && !o.ino.ever[n] {
+			foreign = append(foreign, n)
+		}
+	}
+	if len(foreign) == 0 {
+		return false
+	}
+	sig := "fd_readdir:lists-entries-the-directory-never-had"
+	if res := h.m.resolve(h.m.root, o.opened); res.node != nil && res.node != o.ino && res.node.isDir {
+		sig = "dirfd-adopts-recreated-directory:fd_readdir"
+	}
+	h.record(sig, fmt.Sprintf("fd_readdir(%d): the descriptor was opened on %q, a directory that never contained %q; a different directory now has that path", fd, o.opened, foreign))
+	h.res.Soft++
+	return true
 }
 
 // ---------------------------------------------------------------------------
